@@ -16,6 +16,7 @@ mod rules;
 mod cjson;
 mod signed;
 mod importers;
+mod wire;
 
 pub fn err_name(e: &in_toto::Error) -> String {
     let d = format!("{:?}", e);
@@ -68,6 +69,7 @@ fn main() {
             "cjson" => cjson::run(sc),
             "signed_bytes" => signed::run(sc),
             "importers" => importers::run(sc),
+            "wire" => wire::run(sc),
             _ => json!({"outcome": "unsupported-kind"}),
         });
         out.push(r);
